@@ -495,6 +495,54 @@ def rule_R7(ctx, f):
         ctx.ob(rid, "encode_impl|type-always", b.all_paths_pass(cont, [cs[5].bb], dst_set={fnext[0].bb}) if cont is not None else False, "every accepted family gets a TYPE line", site=cs[5].span)
 
 
+def rule_R8(ctx, f):
+    rid = "R8"
+    ctx.rule(rid, "label block: label_pairs_to_text renders every pair of the slice (no filter, no path through the loop body that skips the name or the value), the additional "
+                  "label exactly when it is Some, and closes the block on every path on which it opened it (the only way past the closing brace is the empty-input early return)")
+    from . import hash_common as hc
+    from .C13 import real_guards
+    b = ctx.anchor(rid, "label_pairs_to_text", f.body(T + "label_pairs_to_text"))
+    if not b:
+        return
+    ctx.saw(b)
+    nx = b.calls_to("Iterator::next")
+    e = elem_of(("field", ("downcast", nx[0].result_term(), "Some"), "0")) if len(nx) == 1 else None
+    ok = bool(e) and peel(e[0]) == P(1) and not [a for a in e[1] if a not in ("into_iter", "iter")]
+    ctx.ob(rid, "label_pairs_to_text|all-pairs", ok, "the loop must run over every element of `pairs`, in order", site=b.raw["span"]["at"])
+    if not ok:
+        return
+    elem = ("field", ("downcast", nx[0].result_term(), "Some"), "0")
+    ws = b.calls_to("WriteUtf8::write_all")
+    per_pair = [w for w in ws if elem in list(subterms(w.args[1]))]
+    kinds = set()
+    for w in per_pair:
+        t = peel(w.args[1], transparent=tc.DEREFS + ["escape_string", "Cow::deref"])
+        kinds.add("name" if is_call(t, ["LabelPair::name", "get_name"]) else "value" if is_call(t, ["LabelPair::value", "get_value"]) else "?")
+        ctx.ob(rid, "label_pairs_to_text|pair-write#%d|every-element" % per_pair.index(w), hc.every_element(b, w) is True,
+               "every pair must be rendered: no path through the loop body may reach the next pair without this write (an empty value is still a label)", site=w.span)
+    ctx.ob(rid, "label_pairs_to_text|pair-pieces", kinds == {"name", "value"} and len(per_pair) == 2, "per pair exactly the name and the (escaped) value are written (found %s)" % sorted(kinds), site=b.raw["span"]["at"])
+    close = [w for w in ws if tc.const_str(peel(w.args[1])) == '"}"']
+    okc = len(close) == 1
+    bad = []
+    if okc:
+        # every successful return that wrote anything wrote the closing brace afterwards
+        from pvrules.rules import result_assign_blocks
+        _, okb = result_assign_blocks(b)
+        for w in ws:
+            if w is not close[0] and not b.all_paths_pass(w.bb, [close[0].bb], dst_set=okb):
+                bad.append("after " + show(w.args[1])[:60])
+        okc = bool(okb)
+    ctx.ob(rid, "label_pairs_to_text|closing-brace", okc and not bad,
+           "the closing brace must be written on every successful path on which anything was written; paths that skip it: %s" % bad[:3], site=close[0].span if close else b.raw["span"]["at"])
+    # the additional label: written under discr(additional_label) == Some only
+    add = [w for w in ws if w not in per_pair and [s_ for s_ in subterms(w.args[1]) if s_ == ("downcast", P(2), "Some")]]
+    oka = len(add) == 2
+    for w in add:
+        gs = [g for g in real_guards(b, w.bb) if not is_call(g[1] if g[0] == "discr" else g, ["Try::branch", "Iterator::next", "slice::is_empty", "Option::is_none"])]
+        oka = oka and gs == [("discr", P(2))]
+    ctx.ob(rid, "label_pairs_to_text|additional-label", oka, "the additional label (name and escaped value) is written exactly when it is Some", site=b.raw["span"]["at"])
+
+
 def run(ctx):
     f = ctx.facts("default")
     ctx.run_rule("R1", rule_R1, f)
@@ -504,6 +552,7 @@ def run(ctx):
     ctx.run_rule("R5", rule_R5, f)
     ctx.run_rule("R6", rule_R6, f)
     ctx.run_rule("R7", rule_R7, f)
+    ctx.run_rule("R8", rule_R8, f)
     if ctx.tier == "thorough":
         g = ctx.facts("plain")
         ctx.run_rule("R1@plain", lambda c: rule_R1(c, g))
